@@ -33,6 +33,15 @@ func Expect(s *Spec) *sysl.Module {
 					app.Types = map[string]*sysl.Type{}
 				}
 				app.Types[mem.Type.Name] = expectType(a, mem.Type)
+				for _, f := range mem.Type.Fields {
+					if len(f.Inplace) > 0 {
+						nested := map[string]*sysl.Type{}
+						for _, g := range f.Inplace {
+							nested[g.Name] = typeOf(a, []string{mem.Type.Name, f.Name}, g.T, true)
+						}
+						app.Types[mem.Type.Name+"."+f.Name] = &sysl.Type{Type: &sysl.Type_Tuple_{Tuple: &sysl.Type_Tuple{AttrDefs: nested}}}
+					}
+				}
 			case mem.Ep != nil:
 				if app.Endpoints == nil {
 					app.Endpoints = map[string]*sysl.Endpoint{}
@@ -44,6 +53,72 @@ func Expect(s *Spec) *sysl.Module {
 					app.Endpoints = map[string]*sysl.Endpoint{}
 				}
 				expectRest(a, app, mem.Rest, "", nil, nil)
+			}
+		}
+	}
+	// collectors: the statements of `.. * <- *` carry attributes that post-processing merges
+	// into the named endpoint / into every matching call statement of the application
+	for _, a := range s.Apps {
+		app := m.Apps[a.Name()]
+		for _, mem := range a.Members {
+			if mem.Collector == nil {
+				continue
+			}
+			if app.Endpoints == nil {
+				app.Endpoints = map[string]*sysl.Endpoint{}
+			}
+			col := &sysl.Endpoint{Name: ".. * <- *"}
+			for _, cs := range mem.Collector {
+				st := &sysl.Statement{Attrs: attrMap(cs.Attrs)}
+				if cs.Kind == "call" {
+					st.Stmt = &sysl.Statement_Call{Call: &sysl.Call{Target: &sysl.AppName{Part: cs.Target}, Endpoint: cs.Ep}}
+				} else {
+					st.Stmt = &sysl.Statement_Action{Action: &sysl.Action{Action: cs.Text}}
+				}
+				col.Stmt = append(col.Stmt, st)
+			}
+			app.Endpoints[col.Name] = col
+			for _, cs := range mem.Collector {
+				if cs.Kind != "call" {
+					if ep := app.Endpoints[cs.Text]; ep != nil {
+						if ep.Attrs == nil {
+							ep.Attrs = map[string]*sysl.Attribute{}
+						}
+						mergeInto(ep.Attrs, attrMap(cs.Attrs))
+					}
+					continue
+				}
+				var apply func(ss []*sysl.Statement)
+				apply = func(ss []*sysl.Statement) {
+					for _, st := range ss {
+						switch x := st.Stmt.(type) {
+						case *sysl.Statement_Call:
+							if joinParts(x.Call.Target.GetPart()) == joinParts(cs.Target) && x.Call.Endpoint == cs.Ep {
+								if st.Attrs == nil {
+									st.Attrs = map[string]*sysl.Attribute{}
+								}
+								mergeInto(st.Attrs, attrMap(cs.Attrs))
+							}
+						case *sysl.Statement_Cond:
+							apply(x.Cond.Stmt)
+						case *sysl.Statement_Group:
+							apply(x.Group.Stmt)
+						case *sysl.Statement_Loop:
+							apply(x.Loop.Stmt)
+						case *sysl.Statement_Foreach:
+							apply(x.Foreach.Stmt)
+						case *sysl.Statement_Alt:
+							for _, c := range x.Alt.Choice {
+								apply(c.Stmt)
+							}
+						}
+					}
+				}
+				for name, ep := range app.Endpoints {
+					if name != col.Name {
+						apply(ep.Stmt)
+					}
+				}
 			}
 		}
 	}
@@ -230,6 +305,12 @@ func expectType(a *App, t *Type) *sysl.Type {
 		var pk []string
 		for _, f := range t.Fields {
 			ft := fieldType(a, t, f)
+			if len(f.Inplace) > 0 {
+				// the field refers (by its own name, no context) to the in-place tuple type
+				ft = &sysl.Type{Type: &sysl.Type_TypeRef{TypeRef: &sysl.ScopedRef{Ref: &sysl.Scope{Path: []string{f.Name}}}}}
+			} else if f.List != nil {
+				ft = &sysl.Type{Type: &sysl.Type_List_{List: &sysl.Type_List{Type: ft}}}
+			}
 			defs[f.Name] = ft
 			for _, at := range f.Attrs {
 				if at.Tag && at.Name == "pk" {
